@@ -201,3 +201,41 @@ Check c01_c18_reader_no_panic.
 Theorem c01_c19_worklist_fuel : ltac:(let t := type of C19.worklist_fuel in exact t).
 Proof. exact C19.worklist_fuel. Qed.
 Check c01_c19_worklist_fuel.
+(* ---- src/read/macros.rs (Model/MacroRd.v; theorems and non-vacuity examples in Properties/C01Macro.v) ---- *)
+Require GV.Properties.C01Macro.
+(* C01Macro.macro_no_panic — get_macinfo / get_macros (unit header) / every MacroIter::next from any state / the whole ignore-errors loop within |section|+1 calls: never Panic, fuel suffices *)
+Theorem c01_c01m_macro_no_panic : ltac:(let t := type of C01Macro.macro_no_panic in exact t).
+Proof. exact C01Macro.macro_no_panic. Qed.
+Check c01_c01m_macro_no_panic.
+(* C01Macro.macro_iter_terminates — MacroIter with errors ignored: at most |remaining input| entries-or-errors, then Ok(None) for ever *)
+Theorem c01_c01m_macro_iter_terminates : ltac:(let t := type of C01Macro.macro_iter_terminates in exact t).
+Proof. exact C01Macro.macro_iter_terminates. Qed.
+Check c01_c01m_macro_iter_terminates.
+(* C01Macro.macro_section_terminates — from get_macinfo / get_macros: Ok(None) for ever after at most |section| calls *)
+Theorem c01_c01m_macro_section_terminates : ltac:(let t := type of C01Macro.macro_section_terminates in exact t).
+Proof. exact C01Macro.macro_section_terminates. Qed.
+Check c01_c01m_macro_section_terminates.
+(* C01Macro.macro_stops_after_error — after any Err the input is empty and every later next() is Ok(None) *)
+Theorem c01_c01m_macro_stops_after_error : ltac:(let t := type of C01Macro.macro_stops_after_error in exact t).
+Proof. exact C01Macro.macro_stops_after_error. Qed.
+Check c01_c01m_macro_stops_after_error.
+(* C01Macro.macro_error_is_last — with errors ignored an error is the last thing MacroIter reports *)
+Theorem c01_c01m_macro_error_is_last : ltac:(let t := type of C01Macro.macro_error_is_last in exact t).
+Proof. exact C01Macro.macro_error_is_last. Qed.
+Check c01_c01m_macro_error_is_last.
+(* C01Macro.macro_progress — every entry or error consumed >= 1 byte; the remaining input is a suffix of the previous one *)
+Theorem c01_c01m_macro_progress : ltac:(let t := type of C01Macro.macro_progress in exact t).
+Proof. exact C01Macro.macro_progress. Qed.
+Check c01_c01m_macro_progress.
+(* C01Macro.macro_roundtrip — every well-formed .debug_macro unit / .debug_macinfo list reads back entry by entry, then Ok(None) *)
+Theorem c01_c01m_macro_roundtrip : ltac:(let t := type of C01Macro.macro_roundtrip in exact t).
+Proof. exact C01Macro.macro_roundtrip. Qed.
+Check c01_c01m_macro_roundtrip.
+(* C01Macro.macro_roundtrip_unit — the same for zero-terminated units followed by any trailing bytes *)
+Theorem c01_c01m_macro_roundtrip_unit : ltac:(let t := type of C01Macro.macro_roundtrip_unit in exact t).
+Proof. exact C01Macro.macro_roundtrip_unit. Qed.
+Check c01_c01m_macro_roundtrip_unit.
+(* C01Macro.macro_operands_table_unsupported — a unit header announcing an opcode operands table is always rejected *)
+Theorem c01_c01m_macro_operands_table_unsupported : ltac:(let t := type of C01Macro.macro_operands_table_unsupported in exact t).
+Proof. exact C01Macro.macro_operands_table_unsupported. Qed.
+Check c01_c01m_macro_operands_table_unsupported.
